@@ -235,7 +235,7 @@ func TestC33StringPadding(t *testing.T) {
 	for l := 0; l <= 600; l++ {
 		lens = append(lens, l)
 	}
-	lens = append(lens, 65534, 65535, 65536, 65537, 1<<24 - 1, 1 << 24, 1<<24 + 1, 1<<24 + 2)
+	lens = append(lens, 65534, 65535, 65536, 65537, 1<<24-1, 1<<24, 1<<24+1, 1<<24+2)
 	pbt.Enumerate(t, "string-nonzero-padding", func(yield func(padCase) bool) {
 		for _, l := range lens {
 			enc := len(refString(make([]byte, l)))
